@@ -1,7 +1,7 @@
 (* GENERATED on every run by translate/track2coq.py from KickMap::applyTo, FokkerPlanckMap::applyTo,
-   PhaseSpace::x/y/q/p/_qp, HDF5File::appendTracks, main() and DynamicRFKickMap::apply/_calcKick of the
-   repository's working tree.  Do not edit.  Vocabulary: Model/TrackX.v. *)
-From Coq Require Import List ZArith QArith Qcanon Bool.
+   PhaseSpace::x/y/q/p/_qp, HDF5File::appendTracks, main(), DynamicRFKickMap::apply/_calcKick and the class
+   declarations of inc/SM/*.hpp (which applyTo a virtual call runs) of the repository's working tree.  Do not edit.  Vocabulary: Model/TrackX.v. *)
+From Coq Require Import List ZArith QArith Qcanon Bool String.
 From Inovesa Require Import Base.FieldKit Base.Float32 Model.Kick Model.Tracking Model.StepKinds Model.TrackX.
 Import ListNotations.
 Local Open Scope Z_scope.
@@ -103,3 +103,14 @@ Definition gen_track_events : list tevent := [TApply MWake; TTrack MWake; TApply
 Definition gen_dyn_apply : list dynstmt := [DCalcKick; DKickApply; DPushPast; DPop].
 (** DynamicRFKickMap::_calcKick: RFKickMap::_calcKick(front()[0], front()[1]) - components handed over as (phase, amplitude) *)
 Definition gen_dyn_calckick_args : Z * Z := (0, 1).
+
+(** class hierarchy below SourceMap as declared in inc/SM/*.hpp: (class, the class whose applyTo body the virtual call in
+    SourceMap::applyToAll runs for an object of that class) - the nearest class on the way up to SourceMap that declares applyTo *)
+Definition gen_applyTo_dispatch : list (string * string) :=
+  [("DriftMap", "KickMap"); ("DynamicRFKickMap", "KickMap"); ("FokkerPlanckMap", "FokkerPlanckMap"); ("Identity", "Identity"); ("KickMap", "KickMap"); ("RFKickMap", "KickMap"); ("RotationMap", "RotationMap"); ("WakeKickMap", "KickMap"); ("WakePotentialMap", "KickMap")]%string.
+(** main(): the classes it stores in the variables it calls `->applyToAll(trackme)` on, with the kind of the variable *)
+Definition gen_tracked_classes : list (smap * string) :=
+  [(MWake, "Identity"); (MWake, "WakePotentialMap"); (MRF, "DynamicRFKickMap"); (MRF, "RFKickMap"); (MDrift, "DriftMap"); (MFP, "FokkerPlanckMap"); (MFP, "Identity")]%string.
+(** the applyTo bodies this file holds: KickMap::applyTo (gen_kick_x, gen_kick_y), FokkerPlanckMap::applyTo (gen_fp_applyTo),
+    Identity::applyTo (checked: empty body) *)
+Definition gen_applyTo_read : list string := ["KickMap"; "FokkerPlanckMap"; "Identity"]%string.
